@@ -16,5 +16,5 @@ TRUST = ["CrossHair 0.0.110 + plug-in (engine/plugin.py) is faithful to CPython 
 # (spec, quick len, thorough len)
 STR_SPECS = [("prefix", 3, 5), ("list", 3, 4), ("nested", 3, 4), ("amb", 2, 3), ("rec", 3, 5), ("uni", 3, 4), ("open", 3, 5),
              ("nullstar", 2, 4), ("nullrule", 2, 4), ("nulltwice", 3, 4), ("nullopen", 2, 3), ("zeromin", 3, 4)]
-REACH = {"amb": "1", "prefix": "3", "zeromin": "2", "nullstar": "4", "starrep": "5"}  # longest word worth asking the twin for
+REACH = {"amb": "1", "prefix": "4", "zeromin": "2", "nulltwice": "3"}  # longest word worth asking the twin for
 RX_SPECS = [("rx1", "abc", 3, 4), ("rx2", "x1y", 4, 4), ("rxe", "ab", 3, 4), ("rxopt", "x1y", 3, 4), ("rxstar", "abx", 3, 4), ("rxuni", "a\xe9!", 4, 4)]  # (spec, alphabet, quick len, thorough len)
